@@ -56,6 +56,18 @@ DIRECTED = {
         {"s": "C", "c": C("SELECT", mb="a")},
         {"par": [{"s": "A", "c": C("RENAME", mb="a", mb2="a/b")}, {"s": "B", "c": C("COPY", arg="inrange", mb="a")},
                  {"s": "C", "c": C("FETCH", arg="star")}]}],
+    # the mailbox a session has selected is deleted (or renamed away) by another session; then every kind of command
+    **{f"selected_mailbox_deleted_then_{k.lower()}{'_uid' if u else ''}": [
+        {"s": "B", "c": C("CREATE", mb="a")}, {"s": "B", "c": C("APPEND", mb="a")}, {"s": "A", "c": C("SELECT", mb="a")},
+        {"s": "C", "c": C("SELECT", mb="a")}, {"s": "B", "c": C("DELETE", mb="a")},
+        {"s": "A", "c": C(k, uid=u, arg="inrange", mb="inbox")}, {"s": "A", "c": C("NOOP")},
+        {"s": "C", "c": C("NOOP")}, {"s": "C", "c": C(k, uid=u, arg="star", mb="inbox")}, {"s": "C", "c": C("SELECT", mb="inbox")}]
+       for k, u in (("FETCH", False), ("FETCHBODY", True), ("STORE", False), ("SEARCHSET", False), ("COPY", True), ("MOVE", False),
+                    ("EXPUNGE", False), ("UIDEXPUNGE", True), ("CLOSE", False), ("CHECK", False), ("IDLE", False), ("UNSELECT", False))},
+    "selected_mailbox_renamed_then_commands": [
+        {"s": "B", "c": C("CREATE", mb="a")}, {"s": "B", "c": C("APPEND", mb="a")}, {"s": "A", "c": C("SELECT", mb="a")},
+        {"s": "B", "c": C("RENAME", mb="a", mb2="b")}, {"s": "A", "c": C("FETCH", arg="inrange")}, {"s": "A", "c": C("STORE", arg="inrange")},
+        {"s": "A", "c": C("NOOP")}, {"s": "A", "c": C("SELECT", mb="b")}, {"s": "A", "c": C("FETCH", arg="inrange")}],
     "idle_lifecycle": [
         {"s": "A", "c": C("SELECT", mb="inbox")}, {"s": "A", "c": C("IDLE")}, {"s": "A", "c": C("NOOP")},
         {"s": "A", "c": C("DONE")}, {"s": "A", "c": C("FETCH", arg="inrange")}, {"s": "A", "c": C("LOGOUT")}],
